@@ -880,6 +880,46 @@ def r17h(ctx: Context) -> None:
             rule.fail(key, loaders[0][1].where, f"'{name}' is loaded through {sorted(formats)}, not as {wanted.upper()}")
 
 
+def r17i(ctx: Context) -> None:
+    """'An invalid value falls back to the default (lenient) or stops the run (strict)': a value is valid when it is
+    one of the documented ones.  A validator that looks a *normalised* copy of the value up in the collection of
+    allowed values (lower-cased, stripped) accepts values the collection does not hold, while the rule keeps and
+    compares the value as written: 'Dash' passes validation and then matches no style."""
+    prog = ctx.prog
+    rule = ctx.rule("R17i", "validators look the value itself up in the collection of allowed values", 2)
+    base = prog.cls(RULE_PLUGIN)
+    checked = 0
+    for cls in sorted(base.all_subclasses(), key=lambda c: c.qualname):
+        if not cls.module.rel.startswith("pymarkdown/plugins/"):
+            continue
+        entry = cls.methods.get("initialize_from_config")
+        if entry is None:
+            continue
+        validators: List[FuncInfo] = []
+        for func, call in _getter_calls(prog, method_closure(prog, cls, ["initialize_from_config"], stop_at=base)):
+            for keyword in call.keywords:
+                if keyword.arg == "valid_value_fn":
+                    validators.extend(prog._function_ref(func, keyword.value))
+        for validator in validators:
+            value_params = [p for p in validator.params if p not in ("self", "cls")]
+            if not value_params:
+                continue
+            value = value_params[0]
+            for node in walk_local(validator.node):
+                if not (isinstance(node, ast.Compare) and len(node.ops) == 1 and isinstance(node.ops[0], (ast.In, ast.NotIn))):
+                    continue
+                if not any(isinstance(sub, ast.Name) and sub.id == value for sub in ast.walk(node.left)):
+                    continue
+                checked += 1
+                key = func_key(validator, node)
+                if isinstance(node.left, ast.Name):
+                    rule.ok(key, "the value as written")
+                else:
+                    rule.fail(key, where(validator, node), f"{validator.short} looks '{norm(node.left)}' up in the allowed values, not the value as written: values that differ from an allowed one in case or padding pass validation (no fallback to the default, no strict-mode error) and then match nothing where the rule compares the stored value")
+    if checked < 2:
+        raise AnalysisError(f"only {checked} membership validators found (6 confirmed)")
+
+
 def run(ctx: Context) -> None:
     r17a(ctx)
     r17b(ctx)
@@ -888,6 +928,7 @@ def run(ctx: Context) -> None:
     r17f(ctx)
     r17g(ctx)
     r17h(ctx)
+    r17i(ctx)
     from sa.rules import c18
 
     c18.config_read_after_load(ctx, "R17e")
